@@ -1,2 +1,3 @@
 import Verif.Props.C20
 import Verif.Props.C03
+import Verif.Props.C02
